@@ -25,6 +25,8 @@ FmtWidths == {0, 1, 2, 4, 7}
 FmtPrecs == {-1, 0, 1, 3}
 FmtVals == {0, 1, 7, 8, 9, 10, 15, 16, 99, 100, 255, 256, 4095} \cup {-1, -9, -10, -255}
 
+SzVals == {PosZero, NegZero, <<"n", 1>>, <<"n", -1>>, <<"n", 2>>, <<"n", -2>>, <<"n", 3>>, <<"n", -3>>, <<"n", -6>>, <<"n", 4>>,
+           <<"q", 1, -1>>, <<"q", -1, -1>>, <<"q", 3, -1>>, <<"q", -3, -2>>, Inf(1), Inf(-1), NaN}
 FltVals == {<<0, 0>>, <<1, 0>>, <<100, 0>>, <<5, -1>>, <<3, -1>>, <<25, -1>>, <<1999, -1>>, <<1, -4>>, <<7, -3>>, <<1, -7>>,
             <<19, -1>>, <<1, -14>>}                               \* <<mag, e>>: mag * 2^e
 WideToks == {Tok([m |-> m, e |-> e]) : m \in {1, 3, -5, 1048575}, e \in {0, 600, 1003, 1023}}
@@ -39,6 +41,7 @@ CasesOf(sc) ==
       [] sc = "num" -> Grid \X Grid
       [] sc = "flt" -> {<<cv, fl, w, pr, neg, v>> : cv \in {102, 101, 103}, fl \in FmtFlags, w \in {0, 9},
                                                      pr \in {-1, 0, 2}, neg \in BOOLEAN, v \in FltVals}
+      [] sc = "sz" -> SzVals \X SzVals
       [] sc = "wide" -> {x \in WideToks : Representable(x)} \X WideKs \X WideKs
 
 VARIABLES tc, done                      \* tc = <<scope, case>>
@@ -176,7 +179,15 @@ NumLaws == (Scope = "num" /\ done) =>
     (* floor / ceil / abs *)
     /\ DIsInt(fl) /\ DLe(fl, dx) /\ DLess(dx, DAdd(fl, One))
     /\ DIsInt(ce) /\ DLe(dx, ce) /\ DLess(DSub(ce, One), dx)
-    /\ MCeil(x)[1] = Tok(DNeg(V(MFloor(Tok(DNeg(dx)))[1])))
+    /\ MCeil(x)[1] = MNeg(MFloor(MNeg(x))[1])
+    (* signed zeros: a zero result carries the sign these functions define *)
+    /\ (IsZeroTok(MFloor(x)[1]) => ~SignNeg(MFloor(x)[1]))                   \* floor of [0, 1) is +0
+    /\ (IsZeroTok(MCeil(x)[1]) => SignNeg(MCeil(x)[1]) = SignNeg(x))
+    /\ ~SignNeg(MAbs(x)[1])
+    /\ SignNeg(mf[1]) = SignNeg(x) /\ SignNeg(mf[2]) = SignNeg(x)           \* both parts of modf
+    /\ (dy.m # 0 => SignNeg(MFmod(x, y)[1]) = SignNeg(x))
+    /\ MFmod(x, y) = MFmod(x, MNeg(y))
+    /\ (dy.m # 0 => MFmod(MNeg(x), y) = <<MNeg(MFmod(x, y)[1])>>)
     /\ ~DLess(V(MAbs(x)[1]), Zero) /\ (DEq(V(MAbs(x)[1]), dx) \/ DEq(V(MAbs(x)[1]), DNeg(dx)))
     (* modf: parts recompose exactly, fraction in (-1, 1) with the sign of x *)
     /\ DEq(DAdd(V(mf[1]), V(mf[2])), dx) /\ DIsInt(V(mf[1]))
@@ -313,7 +324,48 @@ WideLaws == (Scope = "wide" /\ done) =>
              ELSE q = 0)
     (* the result is a double *)
     /\ Representable(r1)
+    /\ (IsFinite(r1) => SignNeg(r1) = SignNeg(x))                      \* also when it underflows to zero
     (* ldexp composes while no rounding happened in between *)
     /\ ((dx.m # 0 /\ top <= 1023 /\ sh <= 0) => MLdexp(r1, k2) = MLdexp(x, k1 + k2))
     /\ MLdexp(x, 0) = <<x>>
+-----------------------------------------------------------------------------
+(* signed zeros, infinities, NaN: pow (C99 F.9.4.4) and the operators, case <<a, b>> *)
+OneT == <<"n", 1>>
+Val(r) == r[2][1]                         \* the single result of a Def(..)
+SzLaws == (Scope = "sz" /\ done) =>
+    LET a == c[1]  b == c[2]
+        p == MPow(a, b)
+        pn == MPow(a, MNeg(b))
+        q == MDiv(a, b)
+        isInt(t) == IsFinite(t) /\ DIsInt(D(t))
+    IN
+    (* operators: identities that pin the sign of a zero *)
+    /\ MAdd(a, b) = MAdd(b, a) /\ MMul(a, b) = MMul(b, a)
+    /\ MSub(a, b) = MAdd(a, MNeg(b)) /\ MNeg(MNeg(a)) = a
+    /\ MAdd(a, NegZero) = a /\ MMul(a, OneT) = a /\ MMul(a, <<"n", -1>>) = MNeg(a)
+    /\ MDiv(a, OneT) = Def(<<a>>) /\ MDiv(a, <<"n", -1>>) = Def(<<MNeg(a)>>)
+    /\ (IsFinite(a) => MAdd(a, MNeg(a)) = PosZero /\ MSub(a, a) = PosZero)        \* x - x = +0 (round to nearest)
+    /\ (a[1] # "nan" /\ b[1] # "nan" /\ MMul(a, b)[1] # "nan" => SignNeg(MMul(a, b)) = (SignNeg(a) # SignNeg(b)))
+    /\ (q[1] = "ok" /\ Val(q)[1] # "nan" => SignNeg(Val(q)) = (SignNeg(a) # SignNeg(b)))
+    /\ (q[1] = "ok" /\ IsFinite(a) /\ IsFinite(b) /\ D(b).m # 0 => MMul(Val(q), b) = a)   \* an exact quotient
+    /\ MDiv(MNeg(a), b) = (IF q[1] = "ok" THEN Def(<<MNeg(Val(q))>>) ELSE q)
+    /\ (a \in {PosZero, NegZero, Inf(1), Inf(-1)} => MDiv(OneT, Val(MDiv(OneT, a))) = Def(<<a>>))  \* 1/(1/x) = x
+    (* %: literally the manual's a - floor(a/b)*b, evaluated with the operators above *)
+    /\ (MMod(a, b)[1] = "ok" /\ q[1] = "ok" =>
+          MMod(a, b) = Def(<<MSub(a, MMul(MFloor(Val(q))[1], b))>>))
+    /\ (MMod(a, b)[1] = "ok" /\ IsFinite(Val(MMod(a, b))) /\ ~IsZeroTok(Val(MMod(a, b))) =>
+          SignNeg(Val(MMod(a, b))) = SignNeg(b) /\ DLess(DAbsV(D(Val(MMod(a, b)))), DAbsV(D(b))))
+    (* pow: the special cases are consistent with each other *)
+    /\ MPow(a, PosZero) = Def(<<OneT>>) /\ MPow(a, NegZero) = Def(<<OneT>>) /\ MPow(OneT, b) = Def(<<OneT>>)
+    /\ (a[1] # "nan" => MPow(a, OneT) = Def(<<a>>))
+    /\ (p[1] = "ok" /\ pn[1] = "ok" /\ MDiv(OneT, Val(p))[1] = "ok" => pn = MDiv(OneT, Val(p)))   \* x^-y = 1 / x^y
+    /\ (p[1] = "ok" /\ isInt(b) /\ D(b).m # 0 /\ a[1] # "nan" =>
+          MPow(MNeg(a), b) = Def(<<IF YOddInt(b) THEN MNeg(Val(p)) ELSE Val(p)>>))                 \* parity of the exponent
+    /\ (p[1] = "ok" /\ IsFinite(b) /\ ~isInt(b) /\ a[1] # "nan" /\ SignNeg(a) /\ IsFinite(a) /\ D(a).m # 0 => p = Def(<<NaN>>))
+    /\ (p[1] = "ok" /\ a[1] # "nan" /\ ~SignNeg(a) /\ Val(p)[1] # "nan" => ~SignNeg(Val(p)))       \* a base without sign bit never gives one
+    /\ (b = <<"n", 2>> /\ p[1] = "ok" => p = Def(<<MMul(a, a)>>))
+    /\ (b = <<"n", 3>> /\ p[1] = "ok" => p = Def(<<MMul(MMul(a, a), a)>>))
+    /\ (b = <<"q", 1, -1>> /\ a[1] # "nan" /\ ~SignNeg(a) => p = MSqrt(a))                         \* only then is pow(x, 1/2) sqrt(x)
+    /\ (b = <<"q", 1, -1>> /\ a = NegZero => p = Def(<<PosZero>>) /\ MSqrt(a) = Def(<<NegZero>>))
+    /\ (b = <<"q", 1, -1>> /\ a = Inf(-1) => p = Def(<<Inf(1)>>) /\ MSqrt(a) = Def(<<NaN>>))
 =============================================================================
